@@ -94,6 +94,27 @@ def halt_programs(check, wp, family, seed, layouts, vers=None, num=40):
     return res
 
 
+NOT_SCALABLE = {"heredoc/empty", "nowdoc/empty", "stmt+halt"}     # D6 (known finding) / must be last
+
+
+def join_programs(srcs):
+    """one source from many rendered programs ("<?php " + body each); a program that ends in inline HTML leaves the
+    scanner in HTML mode, so the next one keeps its open tag"""
+    acc = []
+    for s in srcs:
+        acc.append(s if (acc and acc[-1].endswith("</b>\n")) or not acc else "\n" + s[len("<?php "):])
+    return "".join(acc)
+
+
+def scaled_sources(check, family, seed, num, sizes):
+    """sources of many thousand tokens (several 1024-entry pool blocks) built from SyntaxGen derivations under the random layout"""
+    table, behs = syntax.generate(check, family, num=num, seed=seed + 21, depth=3)
+    ex = expand_all(table, behs, seed, ["random"])
+    behs, ex = drop_skipped(behs, ex)
+    big = [e["variants"][0]["src"] for e in ex if not (NOT_SCALABLE & set(e["used"]))]
+    return [join_programs(big[:k]) for k in sizes if k <= len(big)] + [join_programs(big)]
+
+
 def coverage(table, family, results):
     ids = [v["id"] for v in table["variants"] if v["fam"] in ("both", family, family + "g")]
     used = set()
